@@ -274,6 +274,8 @@ def o_identity(case, lines):
 
 # ---- C11 -------------------------------------------------------------------------------------
 def o_navigation(case, lines):
+    if result_class(lines) == "panic":
+        return "parsing or a navigation accessor panicked: " + " ".join(lines[:1])[:200]
     if result_class(lines) != "ok":
         return None
     bad = o_wf_tree(case, lines)
